@@ -38,6 +38,8 @@ package dirreader
 //@   ensures[all] result1 == nil ==> sentlen(lines) - old(sentlen(lines)) == rdrec(lastreader)
 //@   ensures[atmostone] sentlen(lines) - old(sentlen(lines)) == rdrec(lastreader) || sentlen(lines) - old(sentlen(lines)) + 1 == rdrec(lastreader)
 //@   ensures[err] result1 != nil ==> cancelled(ctx) || result1 == rdlasterr(lastreader)
+//@   ensures[others] forall c ref :: c != lines ==> sentlen(c) == old(sentlen(c))
+//@   loop readLines#1 invariant[others] forall c ref :: c != lines ==> sentlen(c) == old(sentlen(c))
 //@   loop readLines#1 invariant[reader] bufioReader != nil && bufioReader == lastreader && rdcount == old(rdcount) + 1
 //@   loop readLines#1 invariant[bytes] numBytesRead == rdgood(bufioReader) && numBytesRead >= 0 && numBytesRead <= 4611686018427387904
 //@   loop readLines#1 invariant[count] sentlen(lines) - old(sentlen(lines)) == rdrec(bufioReader) && sentlen(lines) >= old(sentlen(lines))
@@ -45,6 +47,9 @@ package dirreader
 
 //@ func readFilePathLines
 //@   requires ctx != nil && fsi != nil && l != nil
+//@   modifies chans, readers
+//@   allocates
+//@   ensures[others] forall c ref :: c != l ==> sentlen(c) == old(sentlen(c))
 
 //@ func (*rotatingFile).setOffset
 //@   requires o != nil
@@ -88,3 +93,51 @@ package dirreader
 //@   ensures[write] op == 2 && result == nil ==> o.offset == StartOff(o) + rdgood(lastreader) && sentlen(o.lines) - old(sentlen(o.lines)) == rdrec(lastreader)
 //@   ensures[lines] op == 2 && rdcount == old(rdcount) + 1 ==> (forall k int :: old(sentlen(o.lines)) <= k && k < sentlen(o.lines) ==> LineOf(o.lines, k, lastreader, old(sentlen(o.lines))))
 //@   ensures[nolines] rdcount == old(rdcount) ==> sentlen(o.lines) == old(sentlen(o.lines))
+
+// ---------------------------------------------------------------------------------------------
+// loopWithError: initial files one at a time, oldest first; the live tail only after the last one has been read.
+//   tokens(ch): messages queued in ch plus goroutines spawned that will still send one (every producer of
+//   initFileDone is this function or a reader goroutine with a `sends ... once` contract);
+//   g_started: number of initial-file readers started so far.
+//@ ghost g_started : Int
+//@ ghost g_ninit : Int
+
+//@ ifacemethod fsWatcher.Events
+//@   modifies nothing
+
+// Assumed for backoff.Retry (dependency): it only runs the operation it is given, which here is rotatingFile.read.
+//@ fieldfunc rotatingFile.boFn
+//@   modifies "F!dirreader.rotatingFile!offset", "F!dirreader.rotatingFile!lastSz", sendson(owner.lines), cancels, readers
+//@   allocates
+
+//@ func (*rotatingFile).readWithRetry
+//@   requires o != nil && ctx != nil && o.boFn != nil
+//@   modifies "F!dirreader.rotatingFile!offset", "F!dirreader.rotatingFile!lastSz", sendson(o.lines), cancels, readers
+//@   allocates
+
+// The goroutine that reads one initial file: exactly one completion message, for the file it was started for.
+//@ func (*LogDirReader).loopWithError$2
+//@   requires ctx != nil && o != nil && o.fs != nil && o.lines != nil && initFileDone != nil && initFileDone != o.lines
+//@   sends initFileDone once
+//@   ghost g_started := g_started + 1
+//@   ensures[msg] sent(initFileDone, old(sentlen(initFileDone))).filePath == filePath
+
+//@ func (*LogDirReader).loopWithError
+//@   tokens initFileDone
+//@   requires o != nil && alloc(o) && ctx != nil && o.watcher != nil && o.fs != nil && o.lines != nil && alloc(o.lines) && o.initFilesDone != nil && !closed(o.initFilesDone)
+//@   ghost g_started := 0
+//@   ghost g_ninit := len(o.initFileNames)
+//@   ensures[nonnil] result != nil
+//@   assert_at go:(*LogDirReader).loopWithError$2[order] tokens(initFileDone) == 0 && 0 <= g_started && g_started < g_ninit
+//@   |   && filePath == pathjoin(o.dirPath, old(o.initFileNames)[g_started])
+//@   assert_at (*rotatingFile).readWithRetry[gate] tokens(initFileDone) == 0 && g_started == g_ninit
+//@   assert_at (*rotatingFile).setOffset[resume] i == done.numBytesRead && done.filePath == mainLogPath
+//@   assert_at close[done] ch == o.initFilesDone && tokens(initFileDone) == 0 && g_started == g_ninit
+//@   loop loopWithError#1 invariant[tok] initFileDone != nil && tokens(initFileDone) == ite(len(o.initFileNames) > 0, 1, 0)
+//@   loop loopWithError#1 invariant[names] len(o.initFileNames) == 0 || (o.initFileNames.id == old(o.initFileNames.id) && len(o.initFileNames) == old(len(o.initFileNames)))
+//@   loop loopWithError#1 invariant[idx] initFileIndex == g_started && 0 <= initFileIndex && initFileIndex <= g_ninit && g_ninit == old(len(o.initFileNames))
+//@   loop loopWithError#1 invariant[fin] len(o.initFileNames) == 0 ==> g_started == g_ninit
+//@   loop loopWithError#1 invariant[closed] closed(o.initFilesDone) <==> len(o.initFileNames) == 0
+//@   loop loopWithError#1 invariant[frame] o.watcher == old(o.watcher) && o.fs == old(o.fs) && o.lines == old(o.lines) && o.dirPath == old(o.dirPath) && o.initFilesDone == old(o.initFilesDone)
+//@   loop loopWithError#1 invariant[mainlog] mainLog != nil && mainLog.boFn != nil && mainLog.lines == o.lines && initFileDone != o.lines
+//@   loop loopWithError#1 invariant[mainpath] mainLogPath == pathjoin(o.dirPath, "audit.log")
